@@ -140,6 +140,20 @@ def check(facts, rep, tier, cfg):
     else:
         rep.ok("C08.R3", "unbounded-peer-wait-before-drain", where, "no unbounded source wait before the drain under failure contexts")
 
+    # ---- R6 nothing in the wind-down awaits a bounded application queue that nobody may be reading
+    rep.rule("C08.R6", "the wind-down never awaits the bounded Bind-request queue (Bind frames are ignored while winding down)")
+    for val, label in ((0, "failure"), (1, "local-drop")):
+        engb = EffectEngine(facts, keep=lambda t: t in ("bind-queue", "dispatch-blocking", "dgram-dispatch-blocking"), keep_fact=lambda f: False)
+        outs = engb.outcomes(wd, tuple((p, val) for p in flag_params))
+        rep.paths += engb.states
+        toks = set(e.replace("may:", "") for _, ef in outs for e in ef)
+        if toks & {"bind-queue", "dispatch-blocking", "dgram-dispatch-blocking"}:
+            rep.bad("C08.R6", "blocking-queue-in-wind-down/%s" % label, where,
+                    "while winding down (flag=%s) a frame still buffered in the WebSocket source can make the task await a bounded "
+                    "application queue (%s): if the application is not draining it, the teardown never completes and pending "
+                    "calls never fail" % (bool(val), sorted(toks)))
+        else:
+            rep.ok("C08.R6", "no-blocking-queue-in-wind-down/%s" % label, where, "no await on the Bind / per-stream / datagram queues during wind-down")
     # ---- entry: select arms and flag values
     entry = None
     idxc = Inter(facts).call_index()
